@@ -41,7 +41,7 @@ class Clock:
 
 import re as _re
 
-_SIMPLE_EXT = _re.compile(r'^permessage-deflate( *; *[a-z_]+(=[0-9]+)?)* *$')
+_SIMPLE_EXT = _re.compile(r'^permessage-deflate([ \t]*;[ \t]*[a-z_]+([ \t]*=[ \t]*("[0-9]+"|[0-9]+))?)*[ \t]*$')
 
 
 def peer_view(sc):
@@ -72,6 +72,7 @@ def peer_view(sc):
     params = {}
     for part in vals[0].split(';')[1:]:
         k, _, v = part.strip().partition('=')
+        k, v = k.strip(), v.strip().strip('"')
         if k in params:
             return 'code'
         params[k] = v
